@@ -18,6 +18,15 @@ ASSUMPTIONS = [
     "system level: two real DatacakeNode clusters (3 nodes; 2+1 nodes), operations through the public handles at level None (bulk writes that list "
     "an id twice, rewrites, writes from two nodes, bulk deletes, delete-then-write), so that other nodes learn of them through the real task "
     "distributor; every node's storage must end with the same stamp, kind and bytes per document (polled up to 40 s)",
+    "system level: three keyspaces (same ids, other contents; one that comes into being last; one node deletes in the first and writes in the second only), "
+    "operations on one document more than a clock tick apart so that Trace_Consistency.tla knows the last writer, the same bytes rewritten after a remote delete, "
+    "reads through storage and through every node's public read API",
+    "split GetState (configs E9 / T2): the peer's handler asks its keyspace actor for the change stamp, then for the state; operations may come in between; in "
+    "tracked mode the real poller round is held inside the real handler (guarded one-shot pause) while the model's steps in between are applied",
+    "in tracked mode, about one behaviour in thirty has one fault in a poller round: the node's storage refuses a repair write or the peer's storage refuses the "
+    "read behind a fetch; later rounds have to repair (the fixpoint is judged as always)",
+    "Poller.tla: the replication cycle's bookkeeping against a peer with several keyspaces (model checked; two unsound variations must be told apart); bound to "
+    "the code only through tracked mode, where every behaviour also runs in a second keyspace that changes at other moments",
     "the distributor's own aggregation loop is specified separately (Distributor.tla, validated on the real clusters of C06); here the harness "
     "builds batch payloads as the distributor does; storage failures are C02's subject",
 ]
@@ -27,7 +36,29 @@ def run(ctx):
     results = cluster_model.run_all(ctx, "C01")
     cov = cluster_model.judge(ctx, results, {"C01", "C02", "C05", "C07", "C19"})
     cov["system_level"] = system_level(ctx)
+    cov["poller_model"] = poller_model(ctx)
+    cov["states"] += cov["poller_model"]["states"]
     return vlib.finish(ctx, "model_checking", cov, ASSUMPTIONS)
+
+
+def poller_model(ctx):
+    """Poller.tla: the replication cycle's bookkeeping against a peer with several keyspaces (poll, tracker diff, state transfer
+    as the handler's two steps, one sync per keyspace that may fail, what the tracker remembers).  TLC checks that the tracker never
+    says 'unchanged' while something is missing; the two unsound variations of the module must be told apart."""
+    consts = dict(Keyspaces={'"a"', '"b"'}, MaxMut=4, MaxRounds=3 if ctx.tier == "quick" else 4, StampLast=False, RememberPolled=False, RememberAll=False)
+    cfg = vlib.cfg_text(constants=consts, invariants=["TrackerSound", "TrackerBehind"])
+    mc, text = vlib.run_tlc(ctx, "Poller", cfg, "mc_poller", workers=4, timeout=1800)
+    if not vlib.require_clean_mc(ctx, mc, text, "Poller"):
+        raise vlib.ToolError("Poller.tla violates %s: specification error" % mc["violated"])
+    told_apart = []
+    for var in ("StampLast", "RememberAll"):
+        c2 = vlib.cfg_text(constants=dict(consts, **{var: True}), invariants=["TrackerSound"])
+        r2, _ = vlib.run_tlc(ctx, "Poller", c2, "mc_poller_" + var, workers=4, timeout=1800)
+        if "TrackerSound" not in r2["violated"]:
+            raise vlib.ToolError("Poller.tla no longer tells the variation %s apart" % var)
+        told_apart.append(var)
+    ctx.log("Poller.tla: %d states (two keyspaces, tracker sound); variations told apart: %s" % (mc["distinct"], ", ".join(told_apart)))
+    return {"states": mc["distinct"], "unsound_variations_told_apart": told_apart}
 
 
 def system_level(ctx):
